@@ -527,7 +527,21 @@ fn define_inherent_impl(
         .inherent_impls
         .entry(key)
         .or_default();
-    impl_def.methods.extend(methods_to_add);
+    for (method_name, scheme) in methods_to_add {
+        // a second impl block for the same type must not silently replace a method of the first
+        if impl_def.methods.contains_key(&method_name) {
+            diagnostics.push(Diagnostic::new(
+                Stage::Typer,
+                Severity::Error,
+                format!(
+                    "Method {} implemented multiple times in impl for {:?}",
+                    method_name, for_ty
+                ),
+            ));
+            continue;
+        }
+        impl_def.methods.insert(method_name, scheme);
+    }
 }
 
 fn define_function(env: &mut PackageTypeEnv, diagnostics: &mut Diagnostics, func: &hir::Fn) {
